@@ -119,9 +119,25 @@ def check(tier: str) -> Result:
                 body = body.args[1][0]          # bool(np.array_equal(..)) is the same truth value
             if ext_name(body) in ("numpy.array_equal", "jax.numpy.array_equal") and len(body.args[1]) == 2:
                 x, y = (strip_cast(z) for z in body.args[1])
-                ok = {x, y} == {la, lb} and set(trees) == {a, b}
+
+                def recast(z) -> bool:
+                    """the operand is converted to an explicit dtype on its way into the comparison"""
+                    for _ in range(6):
+                        z = uncopy(z)
+                        if z.kind != "call":
+                            return False
+                        if z.args[0].kind == "attr" and z.args[0].args[1] in ("astype", "view"):
+                            return True
+                        if dict(z.args[2]).get("dtype") is not None or (ext_name(z) in ("numpy.asarray", "numpy.array", "jax.numpy.asarray", "jax.numpy.array") and len(z.args[1]) > 1):
+                            return True
+                        if not z.args[1]:
+                            return False
+                        z = z.args[1][0]
+                    return False
+                casted = any(recast(z) for z in body.args[1])
+                ok = {x, y} == {la, lb} and set(trees) == {a, b} and not casted
                 kw = dict(body.args[2])
-                why = "all(map(array_equal(leaf1, leaf2)))"
+                why = "all(map(array_equal(leaf1, leaf2)))" if not casted else "a leaf is converted to an explicit dtype before array_equal: leaves of different dtypes / values that differ only beyond that dtype compare equal"
             else:
                 why = f"leaf predicate {txt(body, 5, 120)} is not array_equal (shape and elements)"
     res.add("C19.R2", f.loc(), "testing.pytrees.is_equal_pytree", "equality = all over leaves of numpy.array_equal(leaf1, leaf2)", ok, why)
